@@ -29,7 +29,10 @@ const (
 	NFSERR_NOT_SYNC    = 10002 // Update synchronization mismatch (sattrguard3)
 	NFSERR_NOTSUPP     = 10004 // Operation not supported
 	NFSERR_JUKEBOX     = 10008 // Server busy, try again later (used during policy drain)
-	NFSERR_DELAY       = 10013 // Server is temporarily busy (rate limit exceeded)
+	// NFSERR_DELAY is what rate-limited and timed-out requests are answered
+	// with. On the wire it is NFS3ERR_JUKEBOX, the retry-later member of
+	// nfsstat3 (10013, used before, is not an NFSv3 status).
+	NFSERR_DELAY = NFSERR_JUKEBOX
 
 	// Alias for backward compatibility - use NFSERR_ACCES for NFS3 access denied errors
 	ACCESS_DENIED = NFSERR_ACCES
